@@ -41,6 +41,7 @@ fn ip_of(name: &str, fam: u8) -> IpAddr {
     match (name, fam) {
         ("wild", 4) => v4("0.0.0.0"),
         ("lo", 4) => v4("127.0.0.1"),
+        ("lo2", 4) => v4("127.0.0.2"),
         ("a1", 4) => v4("10.0.1.1"),
         ("a2", 4) => v4("10.0.1.2"),
         ("b1", 4) => v4("10.0.2.1"),
@@ -50,6 +51,7 @@ fn ip_of(name: &str, fam: u8) -> IpAddr {
         ("x", 4) => v4("10.9.9.9"),
         ("wild", 6) => v4("::"),
         ("lo", 6) => v4("::1"),
+        ("lo2", 6) => v4("fd00::7f:2"), // no IPv6 loopback alias exists; never used
         ("a1", 6) => v4("fd00::1:1"),
         ("a2", 6) => v4("fd00::1:2"),
         ("b1", 6) => v4("fd00::2:1"),
@@ -61,7 +63,7 @@ fn ip_of(name: &str, fam: u8) -> IpAddr {
     }
 }
 
-const NAMES: [&str; 9] = ["wild", "lo", "a1", "a2", "b1", "b2", "c1", "c2", "x"];
+const NAMES: [&str; 10] = ["wild", "lo", "lo2", "a1", "a2", "b1", "b2", "c1", "c2", "x"];
 
 fn name_of(ip: IpAddr) -> String {
     let fam = if ip.is_ipv4() { 4 } else { 6 };
@@ -1416,8 +1418,32 @@ fn main_exhaust(args: &[String]) {
         }
         all.extend(w.teardown());
     }
+    // Loopback aliases: every address of 127.0.0.0/8 is local, and "exact address before the wildcard"
+    // distinguishes 127.0.0.1 from 127.0.0.2.  Sockets on the same port at "lo", "lo2" and/or the wildcard;
+    // datagrams to either loopback address from the host itself and (never deliverable) from the other host;
+    // again after the "lo2" socket was closed.
+    for (first, second) in [("lo", "lo2"), ("lo2", "lo"), ("wild", "lo2"), ("lo2", "wild")] {
+        let mut w = World::new(2, &[4], true);
+        let (_, _, _s1) = w.bind(1, "udp", 4, first, 5000);
+        let (_, _, s2) = w.bind(1, "udp", 4, second, 5000);
+        let (_, _, _s3) = w.bind(1, "udp", 4, "lo2", 5001);
+        for da in ["lo2", "lo", "a1"] {
+            w.probe_udp(1, 4, da, 5000);
+            w.probe_udp(1, 4, da, 5001);
+        }
+        w.probe_udp(2, 4, "lo2", 5000);
+        let lo2_sock = if second == "lo2" { s2 } else { _s1 };
+        if lo2_sock != 0 {
+            // (0: the bind was refused - wildcard and specific address conflict on one port)
+            w.close(&[lo2_sock]);
+        }
+        for da in ["lo2", "lo"] {
+            w.probe_udp(1, 4, da, 5000);
+        }
+        all.extend(w.teardown());
+    }
     util::write_ndjson(&out, &all);
-    println!("runs=2 events={}", all.len());
+    println!("runs=6 events={}", all.len());
 }
 
 fn main() {
